@@ -60,6 +60,9 @@ def _run_one(args):
     prop, repo, mutant = args
     from .run import run_rules
 
+    os.environ["VSTAT_WORKERS"] = os.environ.get("VSTAT_SELFTEST_INNER", "2")  # the variants themselves run in parallel
+    os.environ["VSTAT_NO_CACHE_WRITE"] = "1"
+
     try:
         ctx = run_rules(prop, "quick", Path(repo), overlay=mutant.overlay)
     except AnalysisError as err:
@@ -84,7 +87,7 @@ def run_selftest(prop: str, mod, repo: Path, base_ctx) -> dict:
                 except SyntaxError as err:
                     raise AnalysisError(f"sabotage variant {m.name} does not parse: {err}") from err
     jobs = [(prop, str(repo), m) for m in mutants]
-    workers = min(16, os.cpu_count() or 4, max(1, len(jobs)))
+    workers = min(8, os.cpu_count() or 4, max(1, len(jobs)))
     if workers > 1 and len(jobs) > 3:
         with ProcessPoolExecutor(max_workers=workers) as ex:
             results = list(ex.map(_run_one, jobs, chunksize=max(1, len(jobs) // (workers * 4))))
